@@ -261,6 +261,16 @@ func rolesSetup(s *rt.Sim, tier string) func() {
 				rt.Violate("C17/response-not-fatal", "%s: a peer response arrived on a responder-only connection; errors %v, connection closed %v", desc, watch.errs, pair.A.closed)
 				return
 			}
+		case what == "response" && hasInitiator:
+			// an enabled initiator role is reachable: what the protocol does with an unsolicited
+			// reply is the state machine's business, but the *muxer* must let the segment through
+			rt.Hit("roles.response-to-enabled-initiator")
+			for _, e := range watch.errs {
+				if strings.Contains(e.Error(), "not configured as an initiator") {
+					rt.Violate("C17/enabled-initiator-unreachable", "%s: a peer response (%s type %d) for an enabled initiator role was refused by the muxer: %v", desc, pm.label, pm.typ, e)
+					return
+				}
+			}
 		case what == "request" && hasResponder:
 			// an enabled responder is reachable: the request is served
 			rt.Hit("roles.request-served")
